@@ -187,19 +187,26 @@ func runRotate(format string, mode Mode, k, n int, inner int) rotResult {
 	}
 	defer done()
 	offered, err := c06.All(h, s)
-	hasOld := false
+	// distinct values, newest first (a v1 crash between the backup link and the rename offers the old key twice)
+	var distinct [][]byte
 	for _, v := range offered {
-		hasOld = hasOld || bytes.Equal(v, oldPriv)
+		dup := false
+		for _, d := range distinct {
+			dup = dup || bytes.Equal(d, v)
+		}
+		if !dup {
+			distinct = append(distinct, v)
+		}
 	}
 	switch {
 	case err != nil:
 		res.Offered = "err"
-	case len(offered) == 1 && hasOld:
+	case len(distinct) == 1 && bytes.Equal(distinct[0], oldPriv):
 		res.Offered = "0"
-	case len(offered) == 2 && hasOld && bytes.Equal(offered[1], oldPriv):
+	case len(distinct) == 2 && bytes.Equal(distinct[1], oldPriv):
 		res.Offered = "1.0"
 	default:
-		res.Offered = fmt.Sprintf("?%d", len(offered))
+		res.Offered = fmt.Sprintf("?%d", len(distinct))
 	}
 	var privs []*keys.PrivateKey
 	for _, v := range offered {
@@ -232,7 +239,8 @@ func runRotate(format string, mode Mode, k, n int, inner int) rotResult {
 		}
 		if !bytes.Equal(got, plain[i]) {
 			class := "rotate-tool:data-lost"
-			if state == "n" && res.Offered == "0" {
+			// the known finding is about INTERRUPTED or FAILED runs; a complete fault-free run must leave everything readable
+			if state == "n" && res.Offered == "0" && (mode != ModeNone || inner >= 0) {
 				class = "rotate-tool:data-rewritten-before-key-saved"
 			}
 			res.Findings = append(res.Findings, c06.Finding{Class: class, Desc: fmt.Sprintf(
